@@ -4,6 +4,11 @@
                          `checksumLoops` – whether that read sits inside a `while True:` loop that breaks on an empty chunk;
 * `legacyDigestTypes`  – the `len(value) == N` -> `"type"` chain of `Checksums.deserialize` for bare digests;
 * `legacyElseRaises`   – whether that chain ends in `else: raise ValueError(...)` (the F3 fix);
+* `legacyHexGuard`, `legacyHexDigits` – whether the bare branch begins with
+                         `if not all(c in <digits> for c in value): raise ValueError(...)` (the F36 fix) and the characters of
+                         `<digits>` (`string.hexdigits` and friends evaluated from the running interpreter's `string` module, or a
+                         string literal).  The bare branch must be exactly [guard,] chain: any other statement in it makes the whole
+                         chain unrecognised ([] / false);
 * `addRefusesAbsolute`, `addNormalises` – `Checksums.add` begins with the absolute-path refusal and `os.path.normpath`.
 
 Anything not recognised yields 0 / [] / false, which can only break an obligation of Properties/C16.lean.
@@ -46,14 +51,48 @@ def chunk_info(fn):
     return size, loops
 
 
+def hex_guard(st):
+    """`if not all(c in <digits> for c in value): raise ValueError(...)` -> the digit characters, else None"""
+    import string
+    if not (isinstance(st, ast.If) and not st.orelse and len(st.body) == 1 and isinstance(st.body[0], ast.Raise)):
+        return None
+    exc = st.body[0].exc
+    if not (isinstance(exc, ast.Call) and isinstance(exc.func, ast.Name) and exc.func.id == "ValueError"):
+        return None
+    t = st.test
+    if not (isinstance(t, ast.UnaryOp) and isinstance(t.op, ast.Not) and isinstance(t.operand, ast.Call) and isinstance(t.operand.func, ast.Name)
+            and t.operand.func.id == "all" and len(t.operand.args) == 1 and not t.operand.keywords and isinstance(t.operand.args[0], ast.GeneratorExp)):
+        return None
+    g = t.operand.args[0]
+    if not (len(g.generators) == 1 and not g.generators[0].ifs and not g.generators[0].is_async and isinstance(g.generators[0].target, ast.Name)
+            and isinstance(g.generators[0].iter, ast.Name) and g.generators[0].iter.id == "value"):
+        return None
+    var = g.generators[0].target.id
+    e = g.elt
+    if not (isinstance(e, ast.Compare) and len(e.ops) == 1 and isinstance(e.ops[0], ast.In) and isinstance(e.left, ast.Name) and e.left.id == var):
+        return None
+    d = e.comparators[0]
+    if isinstance(d, ast.Constant) and isinstance(d.value, str):
+        return d.value
+    if isinstance(d, ast.Attribute) and isinstance(d.value, ast.Name) and d.value.id == "string" and isinstance(getattr(string, d.attr, None), str):
+        return getattr(string, d.attr)             # evaluated from the interpreter the library runs under
+    return None
+
+
 def legacy_chain(fn):
-    """-> ([(length, type)], else_raises)"""
+    """-> ([(length, type)], else_raises, hex digits of the guard or None)"""
     if fn is None:
-        return [], False
+        return [], False, None
     for node in ast.walk(fn):
         if isinstance(node, ast.If) and isinstance(node.test, ast.Compare) and len(node.test.ops) == 1 and isinstance(node.test.ops[0], ast.NotIn) \
                 and isinstance(node.test.left, ast.Constant) and node.test.left.value == ":":
-            chain, cur, else_raises = [], node.body[0] if len(node.body) == 1 else None, False
+            digits, body = None, list(node.body)
+            if len(body) == 2:
+                digits = hex_guard(body[0])
+                if digits is None:
+                    return [], False, None
+                body = body[1:]
+            chain, cur, else_raises = [], body[0] if len(body) == 1 else None, False
             while isinstance(cur, ast.If):
                 t = cur.test
                 ok = (isinstance(t, ast.Compare) and len(t.ops) == 1 and isinstance(t.ops[0], ast.Eq) and isinstance(t.left, ast.Call)
@@ -64,7 +103,7 @@ def legacy_chain(fn):
                            and isinstance(cur.body[0].value.elts[0].value, str) and isinstance(cur.body[0].value.elts[1], ast.Name)
                            and cur.body[0].value.elts[1].id == "value")
                 if not (ok and body_ok):
-                    return [], False
+                    return [], False, None
                 chain.append((t.comparators[0].value, cur.body[0].value.elts[0].value))
                 if len(cur.orelse) == 1 and isinstance(cur.orelse[0], ast.If):
                     cur = cur.orelse[0]
@@ -73,10 +112,10 @@ def legacy_chain(fn):
                         exc = cur.orelse[0].exc
                         else_raises = isinstance(exc, ast.Call) and isinstance(exc.func, ast.Name) and exc.func.id == "ValueError"
                     elif cur.orelse:
-                        return [], False
+                        return [], False, None
                     cur = None
-            return chain, else_raises
-    return [], False
+            return chain, else_raises, digits
+    return [], False, None
 
 
 def add_info(fn):
@@ -96,7 +135,7 @@ def generate(mods, repo):
     path = os.path.join(repo, "productmd", "treeinfo.py")
     tree = ast.parse(open(path).read(), path)
     size, loops = chunk_info(find_func(tree, None, "compute_checksum"))
-    chain, else_raises = legacy_chain(find_func(tree, "Checksums", "deserialize"))
+    chain, else_raises, digits = legacy_chain(find_func(tree, "Checksums", "deserialize"))
     refuses, normalises = add_info(find_func(tree, "Checksums", "add"))
     b = lambda x: "true" if x else "false"
     out = ["import ProductMD.Model.Str",
@@ -107,7 +146,11 @@ def generate(mods, repo):
            "/-- bare (legacy) digests: `len(value) == n` -> type -/",
            "def legacyDigestTypes : List (Nat × Str) :=\n  [%s]" % ", ".join("(%d, %s)" % (n, T.lstr(t)) for n, t in chain), "",
            "/-- the chain ends in `else: raise ValueError` -/", "def legacyElseRaises : Bool := %s" % b(else_raises), "",
+           "/-- the bare branch begins with `if not all(c in <digits> for c in value): raise ValueError` -/",
+           "def legacyHexGuard : Bool := %s" % b(digits is not None),
+           "/-- `<digits>` (`string.hexdigits` of the running interpreter) -/",
+           "def legacyHexDigits : Str := %s" % T.lstr(digits or ""), "",
            "def addRefusesAbsolute : Bool := %s" % b(refuses), "def addNormalises : Bool := %s" % b(normalises), "",
            "end PM.Gen"]
-    js = dict(chunk_size=size, loops=loops, legacy=chain, else_raises=else_raises, add_refuses_absolute=refuses, add_normalises=normalises)
+    js = dict(chunk_size=size, loops=loops, legacy=chain, else_raises=else_raises, hex_guard=digits is not None, hex_digits=digits or "", add_refuses_absolute=refuses, add_normalises=normalises)
     return [("Checksums.lean", "\n".join(out) + "\n", js)]
